@@ -277,6 +277,39 @@ class Check:
             return {"C18", "C08"}
         return {"C08"}
 
+    COVERAGE_KNOWN = ("find_pippinger_window_via_estimate", "impl ::ff::Field for Fq :: fn random", "impl ::ff::Field for Fr :: fn random")
+    COVERAGE_FILES = [
+        ("bls12_381/fq.rs", {"C08", "C18", "C13"}), ("bls12_381/fr.rs", {"C08", "C18", "C13"}), ("mod fq", {"C08", "C18"}), ("mod fr", {"C08", "C18"}),
+        ("bls12_381/fq2.rs", {"C09", "C18", "C12"}), ("bls12_381/fq6.rs", {"C09", "C12"}), ("bls12_381/fq12.rs", {"C09", "C12"}),
+        ("bls12_381/ec/", {"C01", "C02", "C04", "C05", "C07", "C10", "C19"}), ("bls12_381/mod.rs", {"C03", "C11", "C12"}),
+        ("wnaf.rs", {"C02", "C20"}), ("serdes.rs", {"C19"}), ("hash_to_field.rs", {"C13", "C06"}), ("hash_to_curve.rs", {"C06"}), ("map_to_curve.rs", {"C14", "C06"}),
+        ("osswu_map", {"C15"}), ("isogeny", {"C16"}), ("cofactor.rs", {"C17"}), ("signum.rs", {"C18"}), ("lib.rs", {"C03", "C11", "C05", "C02", "C10"}),
+    ]
+
+    def step_coverage(self):
+        """every function of /repo/src that has behaviour is known to a translator (or on the short list of known exceptions):
+        a NEW function the translators do not know (for instance an inherent method that shadows a trait method the generated
+        code resolves) makes the translation unsound without changing any generated definition"""
+        script = os.path.join(VERIF, "extract", "coverage.py")
+        if not os.path.exists(script):
+            return
+        rc, out, dt = sh([sys.executable, script, "--stdout"])
+        self.timing["coverage_s"] = round(dt, 2)
+        if rc != 0 or "NOT COVERED (" not in out:
+            self.oblige("coverage:audit-ran", False, out[-300:])
+            return
+        tail = out[out.rindex("NOT COVERED ("):].split("\n")[1:]
+        new = [l.strip() for l in tail if l.startswith("  ") and not any(k in l for k in self.COVERAGE_KNOWN)]
+        mine = []
+        for l in new:
+            concerned = None
+            for key, props in self.COVERAGE_FILES:
+                if key in l.split("  ")[0] or key in l[:80]:
+                    concerned = props; break
+            if concerned is None or self.pid in concerned:
+                mine.append(l[:200])
+        self.oblige("coverage:every-function-known-to-a-translator", not mine, "; ".join(mine[:3]))
+
     def step_genarith(self):
         """equality theorems `generated-from-Rust = hand model` (arithmetic, encoding layer, derive output); only the ones
         that concern this property are its obligations, and a failure is attributed to the theorem it occurs in"""
